@@ -7,10 +7,12 @@ import (
 	"fmt"
 	"math/rand"
 	"net"
+	"net/netip"
 	"os"
 	"runtime"
 	"strings"
 	"sync"
+	"sync/atomic"
 	"time"
 
 	"github.com/IrineSistiana/mosproxy/app/router"
@@ -499,6 +501,9 @@ type step struct {
 	name string
 }
 
+// names whose later steps are bursts handed to the router directly (no sockets): n goroutines, 1500 queries each
+var directStorm sync.Map
+
 func runTimed(tag string, o instOpts, prep func(in *inst), steps []step) {
 	in, err := newInst(tag, o)
 	if err != nil {
@@ -516,6 +521,23 @@ func runTimed(tag string, o instOpts, prep func(in *inst), steps []step) {
 		go func() {
 			defer wg.Done()
 			time.Sleep(time.Until(t0.Add(st.at)))
+			if _, ok := directStorm.Load(st.name); ok && st.at > 0 {
+				stormOn.Store(true)
+				var bad atomic.Int64
+				par(st.n, func(i int) {
+					w := mkq(st.name).wire()
+					for k := 0; k < 1500; k++ {
+						raw, err := in.vr.Handle(w, netip.AddrPortFrom(stormAddr, uint16(2000+i)))
+						r := new(dns.Msg)
+						if err != nil || r.Unpack(raw) != nil || r.Rcode != 0 || len(r.Answer) == 0 {
+							bad.Add(1)
+						}
+					}
+				})
+				stormOn.Store(false)
+				in.tr.Emit("burst", "n", st.n*1500, "bad", bad.Load())
+				return
+			}
 			par(st.n, func(i int) { in.send([]string{"udp", "tcp"}[i%2], "127.0.1.1", mkq(st.name), 8*time.Second, nil) })
 		}()
 	}
@@ -654,6 +676,11 @@ func modeC08(thorough bool, only string) {
 		ps := n("r0t8d0")
 		add("p-storm", base, func(in *inst) { in.ups["u1"].setSeq(ps, "r0t8d0", "r0t8d900") },
 			step{0, 1, ps}, step{ms(6300), 400, ps}, step{ms(6400), 400, ps}, step{ms(6500), 200, ps})
+		// ... the same with the hits handed to the router at the same instant by 16 goroutines (no sockets)
+		pd := n("r0t8d0")
+		directStorm.Store(pd, true)
+		add("p-direct", base, func(in *inst) { in.ups["u1"].setSeq(pd, "r0t8d0", "r0t8d900") },
+			step{0, 1, pd}, step{ms(6300), 16, pd})
 		p3 := n("r0t8d0")
 		add("p-silent", base, func(in *inst) { in.ups["u1"].setSeq(p3, "r0t8d0", "r0t8d0fS") },
 			step{0, 1, p3}, step{ms(6300), 8, p3}, step{ms(6900), 4, p3})
